@@ -324,6 +324,18 @@ const fmt = (v, d) => {
 };
 globalThis.$p = function () { const a = []; for (let i = 0; i < arguments.length; i++) a.push(fmt(arguments[i])); log.push(a.join(" ")); return arguments[arguments.length - 1]; };
 globalThis.$v = function (x) { return typeof x === "function" ? (x.$id || "fn") : x; };
+globalThis.$id = function (x) {
+  if (typeof x === "function") return "fn:" + x.name;
+  if (typeof x === "string") return "str:" + x;
+  if (x && typeof x === "object") {
+    if (typeof x.join === "function" && typeof x.sep === "string") return "path";
+    if (typeof x.readFileSync === "function") return "fs";
+    if (typeof x.platform === "function" && typeof x.EOL === "string") return "os";
+    if (typeof x.inspect === "function") return "util";
+    return "object";
+  }
+  return typeof x;
+};
 globalThis.$s = function (f, id) { try { f.$id = id; } catch (e) {} };
 globalThis.$q = function (tag, f) { let v; try { v = f(); } catch (e) { v = "!" + (e && e.constructor && e.constructor.name); } return $p(tag, v); };
 for (const g of jobs.globals) globalThis[g] = "g:" + g;
@@ -401,6 +413,7 @@ func must(err error) {
 }
 
 type buildSpec struct {
+	stub     string // if set: the input cannot run as written (files mixing import and module.exports); this module replays the expected probe log instead
 	files    []modFile
 	opts     api.BuildOptions
 	desc     string
@@ -418,6 +431,91 @@ func fixedBuildCorpus() []buildSpec {
 		opts: api.BuildOptions{Format: api.FormatCommonJS, Platform: api.PlatformNode, EntryPoints: []string{"f0.mjs"}},
 		desc: "format=cjs platform=node", kind: "cjs",
 	}}
+}
+
+// Files that mix ESM imports of EXTERNAL modules with module.exports are wrapped in a
+// __commonJS closure; with an output format that keeps import syntax their import
+// statements are hoisted to the top level of the chunk, where the local names of all
+// files meet: default, named and namespace imports of node built-ins under colliding local
+// names in two or three wrapped files plus the (unwrapped) entry.  The expected probe log is
+// known by construction ($id names the module or function a binding holds).
+func genWrappedImportSpec(r *Rng, feat map[string]int) buildSpec {
+	feat["wrapped-external-imports"]++
+	mods := []string{"path", "fs", "os", "util"}
+	named := map[string][]string{"path": {"join", "resolve", "basename"}, "fs": {"readFileSync", "existsSync"}, "os": {"EOL"}, "util": {"inspect", "format"}}
+	pool := []string{"dep", "x", "ns"}
+	tag := 0
+	var expect []string
+	genImports := func() string {
+		var sb strings.Builder
+		used := map[string]bool{}
+		pick := func() string {
+			for {
+				n := pool[r.Intn(len(pool))]
+				if !used[n] {
+					used[n] = true
+					return n
+				}
+			}
+		}
+		var probes []string
+		nimp := r.Range(1, 3)
+		for k := 0; k < nimp; k++ {
+			m := mods[r.Intn(len(mods))]
+			kind := r.Intn(3)
+			if k == 0 && r.Chance(60) {
+				kind = 0 // most files start with a default import: the local names of several files collide
+			}
+			switch kind {
+			case 0:
+				n := pick()
+				fmt.Fprintf(&sb, "import %s from %q;\n", n, m)
+				tag++
+				probes = append(probes, fmt.Sprintf("$p(%d, $id(%s));\n", tag, n))
+				expect = append(expect, fmt.Sprintf("$p(%d, %q);\n", tag, m))
+			case 1:
+				n := pick()
+				f := named[m][r.Intn(len(named[m]))]
+				fmt.Fprintf(&sb, "import { %s as %s } from %q;\n", f, n, m)
+				tag++
+				probes = append(probes, fmt.Sprintf("$p(%d, $id(%s));\n", tag, n))
+				if f == "EOL" {
+					expect = append(expect, fmt.Sprintf("$p(%d, %q);\n", tag, "str:\n"))
+				} else {
+					expect = append(expect, fmt.Sprintf("$p(%d, %q);\n", tag, "fn:"+f))
+				}
+			default:
+				n := pick()
+				fmt.Fprintf(&sb, "import * as %s from %q;\n", n, m)
+				tag++
+				probes = append(probes, fmt.Sprintf("$p(%d, $id(%s));\n", tag, n))
+				expect = append(expect, fmt.Sprintf("$p(%d, %q);\n", tag, m))
+			}
+		}
+		return sb.String() + strings.Join(probes, "")
+	}
+	nw := r.Range(2, 3)
+	var files []modFile
+	var entry strings.Builder
+	var wrapped []modFile
+	for k := 1; k <= nw; k++ {
+		body := genImports()
+		wrapped = append(wrapped, modFile{name: fmt.Sprintf("w%d.js", k), src: body + fmt.Sprintf("module.exports = %d;\n", k)})
+		fmt.Fprintf(&entry, "import \"./w%d.js\";\n", k)
+	}
+	entry.WriteString(genImports())
+	files = append(files, modFile{name: "f0.mjs", src: entry.String()})
+	files = append(files, wrapped...)
+	sp := buildSpec{files: files, kind: "esm", stub: strings.Join(expect, "")}
+	opts := api.BuildOptions{EntryPoints: []string{"f0.mjs"}, Platform: api.PlatformNode, Format: api.FormatESModule}
+	desc := []string{"platform=node format=esm wrapped-external-imports"}
+	if r.Chance(30) {
+		opts.MinifyIdentifiers = true
+		desc = append(desc, "minify-identifiers")
+	}
+	sp.opts = opts
+	sp.desc = strings.Join(desc, " ")
+	return sp
 }
 
 func genBuildSpec(r *Rng, feat map[string]int) buildSpec {
@@ -466,6 +564,9 @@ func runBuildCases(r *Rng, n int, st *Stats, feat map[string]int) {
 	specs := fixedBuildCorpus()
 	for i := 0; i < n; i++ {
 		specs = append(specs, genBuildSpec(r, feat))
+		if i%2 == 0 {
+			specs = append(specs, genWrappedImportSpec(r, feat))
+		}
 	}
 	for i, sp := range specs {
 		cdir := filepath.Join(dir, fmt.Sprintf("c%d", i))
@@ -507,7 +608,13 @@ func runBuildCases(r *Rng, n int, st *Stats, feat map[string]int) {
 		bc.desc["outputs"] = outs
 		for _, e := range opts.EntryPoints {
 			withExports := opts.Format != api.FormatIIFE
-			bc.inJobs = append(bc.inJobs, modJob{Kind: "esm", Path: filepath.Join(cdir, e), Exports: withExports})
+			inPath := filepath.Join(cdir, e)
+			if sp.stub != "" {
+				inPath = filepath.Join(cdir, "expected-log.mjs")
+				must(os.WriteFile(inPath, []byte(sp.stub), 0o644))
+				bc.desc["expected_log_program"] = sp.stub
+			}
+			bc.inJobs = append(bc.inJobs, modJob{Kind: "esm", Path: inPath, Exports: withExports})
 			bc.outJobs = append(bc.outJobs, modJob{Kind: kind, Path: filepath.Join(cdir, "out", strings.TrimSuffix(e, ".mjs")+ext), Exports: withExports})
 		}
 		cases = append(cases, bc)
